@@ -65,7 +65,30 @@ def rebuild(res, gaps):
     return "".join(r)
 
 
+def huge_input(n, seed):
+    """an unbalanced input: one tight cluster of ~80 % of the sequences and a smaller cluster carrying insertions, so that a
+    non-root node with thousands of members receives gap columns from a later merge"""
+    rnd = random.Random(seed)
+    alpha = gen.AA
+    anc = [rnd.choice(alpha) for _ in range(40)]
+    n1 = int(n * 0.8)
+    out = []
+    for i in range(n):
+        s = [c if rnd.random() > 0.06 else rnd.choice(alpha) for c in anc]
+        if i >= n1:
+            pos = 10 + (i % 3) * 9
+            s[pos:pos] = [rnd.choice(alpha) for _ in range(3 + i % 5)]
+            s = [c if rnd.random() > 0.15 else rnd.choice(alpha) for c in s]
+        out.append("".join(s))
+    rnd.shuffle(out)
+    return out
+
+
 def check(case):
+    if "huge" in case:
+        from vlib import sweeps
+        case = {"seqs": huge_input(case["huge"], case["seed"]),
+                "cfg": {"type": 5, "threads": 4, "gpo": -1.0, "gpe": -1.0, "tgpe": -1.0}, "shape": "huge"}
     seqs, cfg = case["seqs"], case["cfg"]
     n = len(seqs)
     names = ["s%d" % i for i in range(n)]
@@ -89,30 +112,58 @@ def check(case):
     if len(snaps) != n - 1:
         return engine.violation({"what": "%d merge snapshots for %d sequences" % (len(snaps), n)}, classes=cl)
     inserted_later = False
+    import numpy as np
+    # per sequence: residues and the final column of every residue
+    fcols, residues = {}, {}
+    for rank, row in final.items():
+        a = np.frombuffer(row.encode("latin-1"), dtype=np.uint8)
+        fcols[rank] = np.nonzero(a != 45)[0]
+        residues[rank] = row.replace("-", "")
+    L = len(next(iter(final.values()))) if final else 0
+    if any(len(r) != L for r in final.values()):
+        return engine.violation({"what": "final rows have unequal lengths", "lens": sorted(set(len(r) for r in final.values()))[:5]}, classes=cl)
+    for rank, res in residues.items():
+        if res != seqs[rank]:
+            return engine.violation({"what": "final row of input %d does not spell the input sequence (C01)" % rank}, classes=cl)
     for sn in snaps:
         mem = sn["members"]
-        try:
+        s_all, f_all = [], []
+        width = None
+        for m in mem:
+            if m["rank"] not in fcols:
+                return engine.violation({"what": "snapshot refers to a rank that is not in the final alignment", "node": sn["node"]}, classes=cl)
+            g = np.asarray(m["gaps"], dtype=np.int64)
+            n_res = len(g) - 1
+            if n_res != len(fcols[m["rank"]]):
+                return engine.violation({"what": "snapshot of node %d has %d gap counts for a sequence of %d residues" % (sn["node"], len(g), len(fcols[m["rank"]]))}, classes=cl)
+            scol = np.cumsum(g[:-1]) + np.arange(n_res)           # snapshot column of every residue
+            w = int(g.sum()) + n_res
+            if width is None:
+                width = w
+            elif w != width:
+                return engine.violation({"what": "snapshot rows of node %d have unequal lengths" % sn["node"], "lens": sorted({width, w})}, classes=cl)
+            s_all.append(scol)
+            f_all.append(fcols[m["rank"]])
+        s_cat = np.concatenate(s_all)
+        f_cat = np.concatenate(f_all)
+        order = np.argsort(s_cat, kind="stable")
+        s_sorted, f_sorted = s_cat[order], f_cat[order]
+        same = s_sorted[1:] == s_sorted[:-1]
+        # residues that shared a column at completion must share one at the end; different columns must keep their order
+        bad = np.nonzero((same & (f_sorted[1:] != f_sorted[:-1])) | (~same & (f_sorted[1:] <= f_sorted[:-1])))[0]
+        if len(bad):
             frows = [final[m["rank"]] for m in mem]
-        except KeyError:
-            return engine.violation({"what": "snapshot refers to a rank that is not in the final alignment", "node": sn["node"]}, classes=cl)
-        srows = [rebuild(fr.replace("-", ""), m["gaps"]) for fr, m in zip(frows, mem)]
-        if len(set(len(x) for x in srows)) != 1:
-            return engine.violation({"what": "snapshot rows of node %d have unequal lengths" % sn["node"],
-                                     "lens": sorted(set(len(x) for x in srows))}, classes=cl)
-        if len(set(len(x) for x in frows)) != 1:
-            return engine.violation({"what": "final rows of the members of node %d have unequal lengths" % sn["node"],
-                                     "lens": sorted(set(len(x) for x in frows))[:5]}, classes=cl)
-        if [x.replace("-", "") for x in frows] != [seqs[m["rank"]] for m in mem]:
-            return engine.violation({"what": "final rows of node %d do not spell the input sequences (C01)" % sn["node"]}, classes=cl)
-        proj = oracle.strip_common_gap_columns(frows)
-        snap = oracle.strip_common_gap_columns(srows)
-        if proj != snap:
-            i = [k for k, (a, b) in enumerate(zip(proj, snap)) if a != b][0]
+            srows = [rebuild(residues[m["rank"]], m["gaps"]) for m in mem]
+            proj = oracle.strip_common_gap_columns(frows)
+            snap = oracle.strip_common_gap_columns(srows)
+            i = next((k for k, (x, y) in enumerate(zip(proj, snap)) if x != y), 0)
             return engine.violation({"what": "node %d (%d members): final rows projected onto the group differ from the group's alignment at completion" % (sn["node"], len(mem)),
                                      "member_rank": mem[i]["rank"], "at_completion": snap[i][:200], "final_projection": proj[i][:200],
                                      "cfg": cfg, "n": n}, classes=cl)
-        if len(mem) >= 2 and len(mem) < n and len(proj[0]) < len(frows[0]):
-            inserted_later = True
+        if len(mem) >= 2 and len(mem) < n:
+            used = np.unique(f_cat)
+            if len(used) and (used[-1] - used[0] + 1) > len(np.unique(s_cat)):
+                inserted_later = True
     if inserted_later:
         cl.append("later_insertion")
     return engine.ok(inserted_later, cl, {"n": n, "shape": case["shape"], "cfg": cfg, "seqs": [s[:40] for s in seqs[:3]],
@@ -139,4 +190,13 @@ def extra(tier, seed, stats):
         if r["status"] == "violation":
             out.append({"case": c, "detail": r["detail"], "kind": r.get("kind")})
     stats.extra["sweep"] = "every sequence count of the count sweep (vlib/sweeps.py), indel-rich families"
+    # one very large input: member lists beyond 2048 / 4096 entries under non-root nodes
+    for n in ([4400] if tier == "quick" else [4400, 8300]):
+        big = {"huge": n, "seed": seed + 1}
+        r = check(big)
+        stats.record(big, r)
+        if r["status"] == "ok":
+            stats.classes["huge_input_nonroot_node>2048_members"] += 1
+        if r["status"] == "violation":
+            out.append({"case": {"huge": n, "seed": seed + 1}, "detail": r["detail"], "kind": r.get("kind")})
     return out
